@@ -254,6 +254,17 @@ def dftInverseNd (roots : Nat → Option (K × K)) (conj re : K → K) (fftw plu
     pure (.error "err:shape")
   else pure (.ok (applyAxes fshape steps x))
 
+/-- `DiscreteFourierTransformBase.__init__`: the range shape is computed from the
+`halfcomplex` ARGUMENT (`reciprocal_grid(domain.grid, shift=False, halfcomplex=halfcomplex)`),
+while the transform uses `self.halfcomplex`, which is forced to `False` on complex domains. -/
+def dftRangeLenCoded (n : Nat) (hcArg : Bool) : Nat := (recipGrid n false hcArg).shape
+
+def dftHalfcomplexFlag (complexDom hcArg : Bool) : Bool := if complexDom then false else hcArg
+
+/-- Length of the array the transform actually produces on the last axis. -/
+def dftOutLen (n : Nat) (complexDom hcArg : Bool) : Nat :=
+  if dftHalfcomplexFlag complexDom hcArg then hcLen n else n
+
 /-- `DiscreteFourierTransformInverse._call_pyfftw` hands the REAL range array to
 `pyfftw_call` even without `halfcomplex`.  pyFFTW accepts a complex-to-real plan only if the
 shapes are complementary in the last axis (`n/2+1 = n`, i.e. `n ≤ 2`) and the direction is
